@@ -94,6 +94,7 @@ package server
 
 //@ func (*Server).periodicBackup(s, ctx)
 //@   requires s != nil && dbInv(s.db) && s.backupClient != nil && ctx != nil
+//@   interference at WriteGen, doBackup writers (*db.DB).Put, (*db.DB).Activate, (*db.DB).DeleteVersion, (*db.DB).Delete assume dbInv(s.db) && s.db.kv.path == old(s.db.kv.path)
 //@   ensures [C17 loop.terminates-only-on-cancel] chanFired(doneChan(ctx))
 //@   at call doBackup: assert [C17 loop.change-driven] call_WriteGen != lastWriteGen
 //@   at call doBackup: assert [C17 loop.rate] uploadAttempts == old(uploadAttempts) || clock >= lastAttemptAt + 60000000000
@@ -101,4 +102,4 @@ package server
 //@     invariant [state] s != nil && dbInv(s.db) && s.backupClient != nil && ctx != nil && clock >= old(clock)
 //@     invariant [rate] uploadAttempts == old(uploadAttempts) || clock >= lastAttemptAt + 60000000000
 //@     progress [C17 loop.quiescent] waits > iterstart(waits)
-//@     progress [C17 loop.retry-after-failure] lastWriteGen == iterstart(lastWriteGen) || (lastWriteGen == call_WriteGen && call_doBackup == nil)
+//@     progress [C17 loop.retry-after-failure] lastWriteGen == iterstart(lastWriteGen) || (lastWriteGen == first_WriteGen && call_doBackup == nil)
